@@ -26,7 +26,7 @@ struct ClientCb;
 struct Cl {
   Server::Client* client; ClientCb* cb; Socket* far; int fd, farFd;
   uint64_t accepted, inflight, peerGot, peerSent, clientRead; int64_t backlog; int expectOnWrite; int onWriteCount;
-  bool suspended, closed, peerClosedByScript, failedIO; int readMode; int pendInWrite, pendInRead, pendSuspend, pendResume; int peerTask; bool peerDone;
+  bool suspended, closed, peerClosedByScript, failedIO; int readMode; int pendInWrite, pendInRead, pendSuspend, pendResume, pendSuspendW, pendResumeW; int peerTask; bool peerDone;
   int onReadWhileSuspended;
 };
 struct Ctx {
@@ -92,6 +92,9 @@ struct ClientCb : public Server::Client::ICallback {
     if (k.expectOnWrite <= 0) fail("C13/unexpected_onWrite", "client %d got onWrite although no backlog drained since the last one", c);
     k.expectOnWrite--;
     if (k.pendInWrite) { int n = k.pendInWrite; k.pendInWrite = 0; probe("write_inside_onWrite"); doWrite(c, n, "onWrite"); }
+    /* flow control from inside onWrite (the event that drained the backlog may also have reported the client readable) */
+    if (k.pendSuspendW) { int t = k.pendSuspendW - 1; k.pendSuspendW = 0; Cl& o = C.cl[t]; if (!o.closed && o.client) { probe(t == c ? "suspend_self_inside_onWrite" : "suspend_other_inside_onWrite"); o.client->suspend(); o.suspended = true; logEvent("suspend_in_onWrite", c, t); } }
+    if (k.pendResumeW) { int t = k.pendResumeW - 1; k.pendResumeW = 0; Cl& o = C.cl[t]; if (!o.closed && o.client) { o.suspended = false; o.client->resume(); logEvent("resume_in_onWrite", c, t); } }
   }
   void onClosed() override {
     Cl& k = C.cl[c];
@@ -125,8 +128,8 @@ struct DriverCb : public Server::Timer::ICallback {
       case S_WAIT: C.waitTicks = (int)(op.a[1] % 20); break;
       case S_INWRITE: k.pendInWrite = (int)(1 + op.a[1] % 1500); break;
       case S_INREAD: k.pendInRead = (int)(1 + op.a[1] % 1500); break;
-      case S_INSUSPEND: k.pendSuspend = 1 + (int)(op.a[1] % C.nc); break;
-      case S_INRESUME: k.pendResume = 1 + (int)(op.a[1] % C.nc); break;
+      case S_INSUSPEND: if (op.a[2] % 2) k.pendSuspendW = 1 + (int)(op.a[1] % C.nc); else k.pendSuspend = 1 + (int)(op.a[1] % C.nc); break;
+      case S_INRESUME: if (op.a[2] % 2) k.pendResumeW = 1 + (int)(op.a[1] % C.nc); else k.pendResume = 1 + (int)(op.a[1] % C.nc); break;
       }
       return;
     }
@@ -214,6 +217,7 @@ static void generate(RunSpec& s, int tier) {
     o.code = k < 50 ? S_WRITE : k < 58 ? S_SUSPEND : k < 66 ? S_RESUME : k < 70 ? S_READMODE : k < 76 ? S_BUFQ : k < 84 ? S_WAIT : k < 91 ? S_INWRITE : k < 95 ? S_INREAD : k < 98 ? S_INSUSPEND : S_INRESUME;
     if (readFocus && r(10) < 6) { uint64_t q = r(10); o.code = q < 4 ? S_INSUSPEND : q < 6 ? S_INRESUME : q < 8 ? S_RESUME : q < 9 ? S_SUSPEND : S_WAIT; }
     if (o.code == S_WRITE && r(3) == 0) o.a[1] = r(40);
+    if (o.code == S_INSUSPEND || o.code == S_INRESUME) { o.a[2] = (int64_t)r(2); if (o.a[2] && r(2)) o.a[1] = o.a[0]; }   /* inside onRead or inside onWrite; in onWrite often on the client itself */
     s.plan.push_back(o);
   }
   for (int c = 0; c < nc; ++c) {
